@@ -185,6 +185,7 @@ class Column(ComponentSchema[PolarsCheckObjects]):
             "description": self.description,
             "default": self.default,
             "metadata": self.metadata,
+            "drop_invalid_rows": self.drop_invalid_rows,
         }
 
     @property
